@@ -883,7 +883,9 @@ class LinearOperator(object):
         # Using symeig is preferable here for psd LinearOperators.
         # Will need to overwrite this function for non-psd LinearOperators.
         evals, evecs = self._symeig(eigenvectors=True)
-        signs = torch.sign(evals)
+        # the sign of a zero eigenvalue is taken as +1: torch.sign would zero out that column of U,
+        # which would then not be orthonormal
+        signs = torch.where(evals < 0, -torch.ones_like(evals), torch.ones_like(evals))
         U = evecs * signs.unsqueeze(-2)
         S = torch.abs(evals)
         V = evecs
